@@ -1,62 +1,199 @@
 (* C20 — Layers are transparent, honour Tower readiness; listeners only observe.
-   Model: Model/Layers.v. Only statements, `exact`, and Print Assumptions. *)
+   Models: Model/Layers.v (protocol, composition, listeners), Model/LayerSem.v (script interface of
+   the transparency / listener modes). Only statements, `exact`, and Print Assumptions. *)
 From TR Require Import Lib.Base Model.Layers Proof.Layers.
 From TR Require Model.Bulkhead Model.Circuit Model.RateLimiter Model.Fallback Proof.RateLimiter Proof.Transparent.
 
-(* Readiness. For EVERY stack of layers (any depth, any order of the five call disciplines
+(* ---- Readiness ------------------------------------------------------------------------------ *)
+(* Sequential client. For EVERY stack of layers (any depth, any order of the five call disciplines
    Swap / Direct / Retry k / Hedge k / Reconnect k that the thirteen middleware follow), every
-   list of requests issued by a contract-respecting client and every readiness script of the
-   wrapped service (Ready / Pending / Err at any poll, including the polls made before retries
-   and hedged attempts): the wrapped service never sees a call on an instance that has not
-   been polled Ready since that instance's previous call. *)
+   list of requests issued by a contract-respecting client, every patience [cf] of that client,
+   every fuel and every readiness script of the wrapped service (shared or per instance; Ready /
+   Pending / Err at any poll, including the polls made before retries and hedged attempts): the
+   wrapped service never sees a call on an instance that has not been polled Ready since that
+   instance's previous call. *)
 Theorem C20_stack_honours_readiness :
-  forall (fuel : nat) (ds : list disc) (orc : list rres) (reqs : list Z),
-    let b := snd (fst (client fuel ds (map (fun _ => init_l) ds) (init_base orc) reqs)) in
+  forall (cf fuel : nat) (ds : list disc) (b0 : base) (reqs : list Z),
+    base_ok b0 -> violations b0 = 0%nat ->
+    let b := snd (fst (client cf fuel ds (init_stack ds b0) reqs)) in
     violations b = 0%nat /\ all_calls_ready (blog b).
 Proof. exact stack_honours_readiness. Qed.
 Print Assumptions C20_stack_honours_readiness.
 
+(* ANY client program: any number of handles (clones of the top of the stack taken at any time),
+   requests issued on any handle in any order and overlapping, handles polled again although
+   ready. The interpreter [run_cops] (what run_script executes for mode-3 scripts) refuses a call
+   on a handle it has not polled ready; under that one condition no program makes the wrapped
+   service see a violation. *)
+Theorem C20_any_program_honours_readiness :
+  forall (cf fuel : nat) (ds : list disc) (b0 : base) (os : list cop),
+    base_ok b0 -> violations b0 = 0%nat ->
+    let b := snd (fst (fst (run_cops (execp fuel ds) cf (init_stack ds b0, init_c) os))) in
+    violations b = 0%nat /\ all_calls_ready (blog b).
+Proof. exact any_program_honours_readiness. Qed.
+Print Assumptions C20_any_program_honours_readiness.
+
 (* Each layer discipline, on top of ANY service that honours the instance interface
    (poll sets readiness of that instance only, clone yields a fresh instance, a call on a ready
-   instance raises no violation), honours the same interface towards its own client. *)
+   instance raises no violation), honours the same interface towards its own client ... *)
 Theorem C20_layer_preserves_contract :
   forall (T : Type) (sub : T -> op -> T * ans) (F : iface T),
     spec sub F -> forall (fuel : nat) (d : disc), spec (lsub sub fuel d) (layer_iface F).
 Proof. exact @layer_spec. Qed.
 Print Assumptions C20_layer_preserves_contract.
 
-(* readiness answers (including errors) surface unchanged through any stack *)
+(* ... hence so does every stack, towards every client (assume / guarantee, by induction). *)
+Theorem C20_stack_preserves_contract :
+  forall (fuel : nat) (ds : list disc), spec (execp fuel ds) (stack_iface fuel ds).
+Proof. exact stack_spec. Qed.
+Print Assumptions C20_stack_preserves_contract.
+
+(* The functional half: a request the client saw answered (code 0) WAS forwarded, on an instance
+   that had been polled ready (no fuel makes this vacuous: with no fuel the code is 3, not 0). *)
+Theorem C20_answered_request_was_called :
+  forall (cf fuel : nat) (ds : list disc) (b0 : base) (q : Z),
+    base_ok b0 -> violations b0 = 0%nat ->
+    let r := client cf fuel ds (init_stack ds b0) [q] in
+    snd r = [0] -> exists x, In (LCall x q true) (blog (snd (fst r))).
+Proof. exact answered_request_was_called. Qed.
+Print Assumptions C20_answered_request_was_called.
+
+(* Each request is forwarded unchanged: the wrapped service sees every request value the client
+   issued, at least once, EXACTLY once when no layer of the stack retries or hedges, and no other
+   value; sequential client and any program (requests numbered 1, 2, ... in order of issue). *)
+Theorem C20_requests_reach_the_service :
+  forall (cf fuel : nat) (ds : list disc) (t : list lstate * base) (reqs : list Z),
+    let r := client cf fuel ds t reqs in
+    (forall q, (ncalls q (blog (snd t)) + count_occ Z.eq_dec (issued reqs (snd r)) q
+                <= ncalls q (blog (snd (fst r))))%nat) /\
+    (Forall plain_disc ds -> forall q,
+        ncalls q (blog (snd (fst r))) =
+        (ncalls q (blog (snd t)) + count_occ Z.eq_dec (issued reqs (snd r)) q)%nat).
+Proof. exact requests_reach_the_service. Qed.
+Print Assumptions C20_requests_reach_the_service.
+
+Theorem C20_program_requests_reach_the_service :
+  forall (cf fuel : nat) (ds : list disc) (b0 : base) (os : list cop),
+    (forall q, ncalls q (blog b0) = 0%nat) ->
+    let r := run_cops (execp fuel ds) cf (init_stack ds b0, init_c) os in
+    let n := nreq (snd (fst r)) in
+    (forall q, 1 <= q <= Z.of_nat n -> (1 <= ncalls q (blog (snd (fst (fst r)))))%nat) /\
+    (Forall plain_disc ds -> forall q,
+        ncalls q (blog (snd (fst (fst r)))) = if (1 <=? q) && (q <=? Z.of_nat n) then 1%nat else 0%nat).
+Proof. exact program_requests_reach_the_service. Qed.
+Print Assumptions C20_program_requests_reach_the_service.
+
+(* ---- Readiness errors surface as readiness errors -------------------------------------------- *)
+(* at poll_ready: the answer any stack gives is the wrapped service's answer (Ready, Pending or
+   Err) for the wrapped instance the handle stands for *)
 Theorem C20_readiness_answers_surface :
   forall (fuel : nat) (ds : list disc) (ls : list lstate) (b : base) (x : nat),
     length ls = length ds ->
-    snd (execp fuel ds (ls, b) (OPoll x)) =
-    ARes (match oracle b with r :: _ => r | [] => RReady end).
+    snd (execp fuel ds (ls, b) (OPoll x)) = ARes (answer b (resolve ls x)).
 Proof. exact poll_passes_through. Qed.
 Print Assumptions C20_readiness_answers_surface.
 
-(* Transparency composes: any stack (any depth, any order) of layers each of which, in its
-   non-triggering configuration, forwards the request once and returns the inner outcome
-   unchanged, does the same. *)
-Theorem C20_transparent_stack :
-  forall (stack : list layer_sem),
-    Forall transparent stack -> forall inner req, stack_sem stack inner req = inner req.
-Proof. exact stack_transparent. Qed.
-Print Assumptions C20_transparent_stack.
+(* anywhere: in a stack without a hedge layer (hedge fails only the attempt that met the error, by
+   design) the readiness errors returned by the wrapped service and the requests the client saw
+   failing with a readiness error -- at poll_ready (code 1) or inside the call, before a further
+   attempt of a retry / reconnect layer at any depth (code 2) -- are equinumerous: every such
+   error ends exactly one request as a readiness error, none is swallowed, none is made up. *)
+Theorem C20_readiness_errors_surface_once :
+  forall (cf fuel : nat) (ds : list disc) (t : list lstate * base) (reqs : list Z),
+    Forall no_hedge ds ->
+    let r := client cf fuel ds t reqs in
+    nerrs (blog (snd (fst r))) = (nerrs (blog (snd t)) + count_if surfaced (snd r))%nat.
+Proof. exact readiness_errors_surface_once. Qed.
+Print Assumptions C20_readiness_errors_surface_once.
 
-(* Listeners only observe: the outcome does not depend on the listener list, every listener
-   is run on every event whatever the others do (return or panic). *)
-Theorem C20_listeners_do_not_change_outcome :
-  forall (events : list Z) (out : outcome) (ls1 ls2 : list listener),
-    fst (run_with_listeners events out ls1) = fst (run_with_listeners events out ls2).
-Proof. exact listeners_do_not_change_outcome. Qed.
-Print Assumptions C20_listeners_do_not_change_outcome.
+Theorem C20_readiness_error_ends_request :
+  forall (cf fuel : nat) (ds : list disc) (b0 : base) (q : Z),
+    Forall no_hedge ds -> nerrs (blog b0) = 0%nat ->
+    let r := client cf fuel ds (init_stack ds b0) [q] in
+    (exists x, In (LPoll x RErr) (blog (snd (fst r)))) -> snd r = [1] \/ snd r = [2].
+Proof. exact readiness_error_ends_request. Qed.
+Print Assumptions C20_readiness_error_ends_request.
 
+Theorem C20_program_readiness_errors_surface_once :
+  forall (cf fuel : nat) (ds : list disc) (b0 : base) (os : list cop),
+    Forall no_hedge ds -> nerrs (blog b0) = 0%nat ->
+    let r := run_cops (execp fuel ds) cf (init_stack ds b0, init_c) os in
+    nerrs (blog (snd (fst (fst r)))) =
+    (count_if is_one (snd r) + count_if is_two (outs (snd (fst r))))%nat.
+Proof. exact program_readiness_errors_surface_once. Qed.
+Print Assumptions C20_program_readiness_errors_surface_once.
+
+(* The fuel that bounds the model's poll loops is not what makes the theorems above true for the
+   scripts run_script executes: with the fuel run_protocol / run_program use (one more than the
+   number of scripted answers) no poll loop gives up and no request hangs (code 9). *)
+Theorem C20_run_protocol_never_hangs :
+  forall (cf : nat) (ds : list disc) (orc : list rres) (reqs : list Z),
+    ~ In 9 (snd (client cf (S (length orc)) ds (init_stack ds (init_base orc)) reqs)).
+Proof. exact run_protocol_never_hangs. Qed.
+Print Assumptions C20_run_protocol_never_hangs.
+
+Theorem C20_run_program_never_hangs :
+  forall (cf : nat) (ds : list disc) (po : list (list rres)) (os : list cop),
+    ~ In 9 (outs (snd (fst (run_cops (execp (S (length (concat po))) ds) cf
+                                     (init_stack ds (init_base_p po), init_c) os)))).
+Proof. exact run_program_never_hangs. Qed.
+Print Assumptions C20_run_program_never_hangs.
+
+(* ---- Transparency ---------------------------------------------------------------------------- *)
+(* Composition. [passes w L]: whatever the wrapped service is, the calls reaching the bottom through
+   L are those of ONE call of the wrapped service with the request unchanged, and L's result is that
+   call's result, an error being wrapped by L's pass-through wrapper w and nothing else. Any stack
+   (any depth, any order) of passing layers forwards the request once and returns the inner result
+   wrapped by the fold of the wrappers, outermost first. (Replaces the former
+   C20_transparent_stack, whose hypothesis `L inner req = inner req` no error-wrapping layer met.) *)
+Theorem C20_stack_passes :
+  forall (E : Type) (st : list (layer_sem E * (E -> E))),
+    Forall (fun p => passes (snd p) (fst p)) st ->
+    forall inner req,
+      calls (stack_sem (map fst st) inner req) = calls (inner req) /\
+      result (stack_sem (map fst st) inner req) = wrap_out (wraps (map snd st)) (result (inner req)).
+Proof. exact @stack_passes. Qed.
+Print Assumptions C20_stack_passes.
+
+(* ---- Listeners ------------------------------------------------------------------------------- *)
+(* [run_steps guarded ls steps cur acc] COMPUTES how a call path (events emitted, outcome fixed
+   when the inner call returns) ends, through the listener invocations: a panic escaping an
+   invocation ends the run with FPanic. With the invocations guarded as EventListeners::emit guards
+   them, whatever the listeners do the outcome is the one the call path fixes by itself ... *)
+Theorem C20_listeners_cannot_change_outcome :
+  forall (ls : list listener) (steps : list lstep) (cur : final),
+    fst (run_steps true ls steps cur []) = final_of steps cur.
+Proof. exact listeners_cannot_change_outcome. Qed.
+Print Assumptions C20_listeners_cannot_change_outcome.
+
+(* ... every listener is handed every event whatever the others did with it ... *)
 Theorem C20_every_listener_gets_every_event :
-  forall (ls : list listener) (ev : Z),
-    length (emit ls ev) = length ls /\
-    forall i l, nth_error ls i = Some l -> nth_error (emit ls ev) i = Some (l ev).
+  forall (ls : list listener) (steps : list lstep) (cur : final),
+    snd (run_steps true ls steps cur []) = deliveries_of ls steps /\
+    (forall ev, In (SEmit ev) steps -> In (ev, map (fun l => l ev) ls) (deliveries_of ls steps)) /\
+    (forall ev i l, nth_error ls i = Some l -> nth_error (map (fun l => l ev) ls) i = Some (l ev)).
 Proof. exact every_listener_gets_every_event. Qed.
 Print Assumptions C20_every_listener_gets_every_event.
+
+(* ... in absolute numbers per event kind. *)
+Theorem C20_per_kind_counts :
+  forall (ls : list listener) (steps : list lstep) (cur : final) (i : nat) (l : listener) (ev : Z),
+    nth_error ls i = Some l -> (forall e, l e <> Skipped) ->
+    count_kind i ev (snd (run_steps true ls steps cur [])) = Z.of_nat (emits ev steps).
+Proof. exact per_kind_counts. Qed.
+Print Assumptions C20_per_kind_counts.
+
+(* The clause is FALSE for bare callback invocations (reconnect's on_state_change / on_reconnect
+   before fix 484f229): the witness is the defect that was found and repaired in /repo. *)
+Theorem C20_bare_callbacks_refuted :
+  let ls := [(fun _ => Panics); (fun _ => Returns)] in
+  let steps := [SOut 0 70; SEmit 0] in
+  fst (run_steps false ls steps (FOut 0 0) []) = FPanic /\
+  final_of steps (FOut 0 0) = FOut 0 70 /\
+  count_kind 1 0 (snd (run_steps false ls steps (FOut 0 0) [])) = 0 /\
+  count_kind 1 0 (snd (run_steps true ls steps (FOut 0 0) [])) = 1.
+Proof. exact bare_callbacks_refuted. Qed.
+Print Assumptions C20_bare_callbacks_refuted.
 
 (* Transparency of the individually modelled layers in their non-triggering configuration
    (the per-layer models are those of C01/C07, C03/C04/C09, C02/C15 and C17; the other layers'
@@ -81,7 +218,8 @@ Theorem C20_closed_circuit_transparent :
     let p3 := Circuit.poll cf s2 0%nat in
     Circuit.started (snd p1) = true /\ Circuit.r (snd p1) = 0 /\
     Circuit.started (snd p3) = false /\
-    Circuit.r (snd p3) = match o with Circuit.OOk _ => 1 | Circuit.OErr _ => 2 | Circuit.OPanic => 5 end.
+    Circuit.r (snd p3) = match o with Circuit.OOk _ => 1 | Circuit.OErr _ => 2
+                                      | Circuit.OPanic | Circuit.OCPanic => 5 end.
 Proof. exact Transparent.circuit_closed_alone. Qed.
 Print Assumptions C20_closed_circuit_transparent.
 
